@@ -1,6 +1,19 @@
 use crate::*;
 use hashlink::LinkedHashMap;
 
+/// Key order of the ledger's withdrawals map: network id, then script credentials before key credentials,
+/// then the credential hash.
+fn ledger_order_less(a: &RewardAddress, b: &RewardAddress) -> bool {
+    if a.network != b.network {
+        return a.network < b.network;
+    }
+    let (a_script, b_script) = (a.payment.has_script_hash(), b.payment.has_script_hash());
+    if a_script != b_script {
+        return a_script;
+    }
+    a.payment.to_raw_bytes() < b.payment.to_raw_bytes()
+}
+
 #[wasm_bindgen]
 #[derive(Clone, Debug)]
 pub struct WithdrawalsBuilder {
@@ -97,8 +110,16 @@ impl WithdrawalsBuilder {
     pub fn get_plutus_witnesses(&self) -> PlutusWitnesses {
         let tag = RedeemerTag::new_reward();
         let mut scripts = PlutusWitnesses::new();
-        for (i, (_, (_, script_wit))) in self.withdrawals.iter().enumerate() {
+        for (address, (_, script_wit)) in self.withdrawals.iter() {
             if let Some(ScriptWitnessType::PlutusScriptWitness(s)) = script_wit {
+                // the ledger indexes reward redeemers by the position of the reward account in its sorted
+                // withdrawals map, whatever the insertion (and serialization) order
+                let mut i = 0usize;
+                for other in self.withdrawals.keys() {
+                    if ledger_order_less(other, address) {
+                        i += 1;
+                    }
+                }
                 let index = BigNum::from(i);
                 scripts.add(&s.clone_with_redeemer_index_and_tag(&index, &tag));
             }
@@ -176,10 +197,22 @@ impl WithdrawalsBuilder {
     }
 
     pub fn build(&self) -> Withdrawals {
-        let map = self
-            .withdrawals
-            .iter()
-            .map(|(k, (v, _))| (k.clone(), v.clone()))
+        // emitted in the ledger's key order, so that the position of an account in the emitted map is
+        // the index its reward redeemer carries
+        let mut entries: Vec<(&RewardAddress, &Coin)> =
+            self.withdrawals.iter().map(|(k, (v, _))| (k, v)).collect();
+        entries.sort_by(|a, b| {
+            if ledger_order_less(a.0, b.0) {
+                std::cmp::Ordering::Less
+            } else if ledger_order_less(b.0, a.0) {
+                std::cmp::Ordering::Greater
+            } else {
+                std::cmp::Ordering::Equal
+            }
+        });
+        let map = entries
+            .into_iter()
+            .map(|(k, v)| (k.clone(), v.clone()))
             .collect();
         Withdrawals(map)
     }
